@@ -152,6 +152,7 @@ Catalogue == [
   SeqS   |-> <<F("v", "vecstr"), F("z", "u8")>>,
   SeqN   |-> <<F("w", "vecu32")>>,
   Seq2   |-> <<F("v", "vecstr"), F("w", "vecu32")>>,          \* two sequences in one value
+  TsSeq  |-> <<F("t", "tup2u32"), F("w", "vecu32")>>,         \* the same through a tuple struct `P2(u32, u32)`
   TupSeq |-> <<F("t", "tup2u32"), F("w", "vecu32")>>,         \* a tuple `(u32, u32)` (a sequence of fixed length to serde) before a sequence
   Map    |-> <<>> ]
 NameCp == [a |-> <<97>>, b |-> <<98>>, c |-> <<99>>, d |-> <<100>>, e |-> <<101>>, f |-> <<102>>, g |-> <<103>>,
